@@ -34,7 +34,7 @@ BLS_EXPAND_LIMIT = 4096
 
 
 def bls(b: pydsdl.BitLengthSet, expand_limit: int = BLS_EXPAND_LIMIT) -> dict:
-    out = {"min": b.min, "max": b.max, "fixed": b.fixed_length, "mod8": sorted(b % 8), "mod64": sorted(b % 64)}
+    out = {"min": b.min, "max": b.max, "fixed": b.fixed_length, "mod8": sorted(b % 8), "mod32": sorted(b % 32), "mod64": sorted(b % 64)}
     return out
 
 
